@@ -198,7 +198,7 @@ QTakeEx(w, v, cand, n) ==
   /\ n \in {0, cand}
   /\ runq' = [runq EXCEPT ![v] = IF n = 0 THEN @ ELSE Tail(@)]
   /\ IF cur[w] = 0
-     THEN /\ n # 0 /\ got' = [got EXCEPT ![w] = n] /\ th' = th
+     THEN /\ (n = 0 => cand # 0) /\ got' = [got EXCEPT ![w] = n] /\ th' = th           \* idle loop (n = 0: the candidate was declined; logged only if the queue is not empty)
      ELSE LET t == cur[w] pc == th[t].pc IN
           /\ got' = got
           /\ pc.k = "yd0" /\ ~StealDone(pc.y) /\ pc.x # 1
